@@ -164,12 +164,26 @@ func verifSelRandn(n uint32) uint32 {
 ]
 
 PATCHES["runtime/time.go"] = [
-    # go1.26 orders fake timers that fire at the same instant by a per-timer random value
-    # The tie-break value is a function of the run's seed, the timer's creation ordinal in
-    # the run and its firing time. It is not drawn from the stream: whether a timer has to
-    # be (re-)added to the heap when a goroutine blocks on its channel depends on how far
-    # the lazy removal of stopped timers has got, which must not shift later choices.
+    # go1.26 orders fake timers that fire at the same instant by a per-timer random value.
+    # Here the order of such a tie is a function of the run's seed, the two timers' creation
+    # ordinals in the run and the firing time, computed when two heap entries are compared.
+    # It is neither drawn from a stream nor stored: a stored value is refreshed only when a
+    # timer is (re-)added to the heap, and whether a reset timer is still in the heap depends
+    # on how far the lazy removal of stopped timers has got.
+    ("\t\treturn tw.timer.rand < other.timer.rand\n",
+     "\t\tif verifStateA != 0 && tw.timer.verifID != 0 && other.timer.verifID != 0 {\n"
+     "\t\t\ta := verifMix(verifStateB ^ (tw.timer.verifID * 0x9e3779b97f4a7c15) ^ uint64(tw.when))\n"
+     "\t\t\tb := verifMix(verifStateB ^ (other.timer.verifID * 0x9e3779b97f4a7c15) ^ uint64(other.when))\n"
+     "\t\t\tif a != b {\n\t\t\t\treturn a < b\n\t\t\t}\n"
+     "\t\t\treturn tw.timer.verifID < other.timer.verifID\n\t\t}\n"
+     "\t\treturn tw.timer.rand < other.timer.rand\n"),
     ("\t\t\tt.rand = cheaprand()", "\t\t\tif verifStateA != 0 {\n\t\t\t\tif t.verifID == 0 {\n\t\t\t\t\tverifTimerCount++\n\t\t\t\t\tt.verifID = verifTimerCount\n\t\t\t\t}\n\t\t\t\tt.rand = uint32(verifMix(verifStateB ^ (t.verifID * 0x9e3779b97f4a7c15) ^ uint64(t.when)))\n\t\t\t} else {\n\t\t\t\tt.rand = cheaprand()\n\t\t\t}"),
+    # creation ordinal: assigned where a fake timer is made (time.NewTimer/AfterFunc/Ticker
+    # and the per-goroutine sleep timer), in program order of the simulated run
+    ("\tif bubble := getg().bubble; bubble != nil {\n\t\tt.isFake = true\n\t}\n\tt.modify(when, period, f, arg, 0)\n",
+     "\tif bubble := getg().bubble; bubble != nil {\n\t\tt.isFake = true\n\t\tif verifStateA != 0 {\n\t\t\tverifTimerCount++\n\t\t\tt.verifID = verifTimerCount\n\t\t}\n\t}\n\tt.modify(when, period, f, arg, 0)\n"),
+    ("\t\tif gp.bubble != nil {\n\t\t\tt.isFake = true\n\t\t}\n\t\tgp.timer = t\n",
+     "\t\tif gp.bubble != nil {\n\t\t\tt.isFake = true\n\t\t\tif verifStateA != 0 {\n\t\t\t\tverifTimerCount++\n\t\t\t\tt.verifID = verifTimerCount\n\t\t\t}\n\t\t}\n\t\tgp.timer = t\n"),
     ("\trand    uint32 // randomizes order of timers at same instant; only set when isFake\n",
      "\trand    uint32 // randomizes order of timers at same instant; only set when isFake\n\tverifID uint64 // verif: creation ordinal within the simulated run\n"),
 ]
